@@ -227,7 +227,7 @@ def main():
                 viol = [l for l in r.stdout.splitlines() if l.startswith("VIOLATION")]
                 clauses = [l.strip() for l in r.stdout.splitlines() if l.strip().startswith("clause:")]
                 res[name] = {"exit": r.returncode, "violations": len(viol), "clauses": clauses[:4],
-                             "wall_s": round(dt, 1)}
+                             "wall_s": round(dt, 1), "tier": tier}
                 want = 0 if name == "unmodified" else 1
                 flag = "ok" if r.returncode == want else "UNEXPECTED"
                 print(f"{cid} {name}: exit={r.returncode} ({flag}) {dt:.0f}s {clauses[:2]}")
